@@ -7,10 +7,11 @@ TARGETS = [
     "cascade.gateway.router:JobRouter.maybe_update",
     "cascade.gateway.router:JobRouter.put_result",
     "cascade.gateway.router:JobRouter.get_result",
+    "cascade.gateway.server:handle_controller",
     "cascade.low.func:next_uuid",
 ]
-# contracts/c18_gateway.py also holds a contract for server.handle_controller; one of its 17 VCs (preservation of the loop invariant
-# through put_result's contract) times out in z3 and cvc5, so it is NOT in the list: the stand-in below decides that function.
+# server.handle_controller (the loop that stores every result a report carries) is under contract too since the engine knows that a
+# list and a dict are different objects (container kinds): its invariant-preservation VC needed exactly that fact.
 
 
 def run(tier, seed):
